@@ -15,12 +15,20 @@ KEY = "assoc-standalone-own-traffic"
 RULE = ("per case: one flow.LoadRules of 1-5 Direct/Reject rules over resources 1..4 (thresholds incl. 0, fractional, subnormal, "
         "NaN, +Inf, negative=invalid; StatIntervalInMs so that default view, derived view, independent window (n buckets of 500, or "
         "one bucket) and rejected geometries all occur; 25% associated rules, a fixed ~12% slice inside the known-finding region), then "
-        "20-90 ops: api.Entry (batch 0..T+1, big), clock steps from {0,1,L-1,L,L+1,Iv-1,Iv,Iv+1,10 s,>array} and snaps onto bucket / "
+        "20-90 ops: api.Entry (batch 0..T+1, big; in 5/8 of the cases a share 15-100% of the entries carries api.WithResourceType(web/rpc/…), typed and untyped mixed on one resource, also on the referenced resource of associated rules, always after the load), clock steps from {0,1,L-1,L,L+1,Iv-1,Iv,Iv+1,10 s,>array} and snaps onto bucket / "
         "window / array-cycle boundaries, `par` (2-4 goroutines parked between rule check and statistic slots under a random schedule), "
         "node sums. Non-trivial = the case has a pass, a flow block and a later pass of the same resource after time moved "
         "(the window rolled); distinct by (rule geometries+relations, op-kind/decision sequence).")
 
 T0 = 1_900_000_000_000
+RTYPES = ["web", "rpc", "gateway", "dbsql", "cache", "mq", "common"]
+
+
+def type_tok(rng, tprob, pref, res, k=1):
+    """optional `type=…` token (api.WithResourceType): '' = plain entry; per-resource preferred type most of the time"""
+    if rng.random() >= tprob:
+        return ""
+    return " type=" + ",".join(pref.get(res, "web") if rng.random() < 0.8 else rng.choice(RTYPES) for _ in range(k))
 
 
 def fb(x):
@@ -89,6 +97,10 @@ def gen_case(rng, cid, force_region=None):
     geoms = [geom(r[2]) for r in rules]
     resources = list(range(1, nres + 1))
     focus = rules[rng.randrange(len(rules))]
+    # resource types: 35% of the cases never pass WithResourceType, the others mix typed and untyped entries
+    # (typed with probability tprob, always after the rules were loaded: `load` is the second op)
+    tprob = rng.choice([0, 0, 0, 0.15, 0.5, 0.5, 0.9, 1.0])
+    pref = {r: rng.choice(RTYPES[:3]) for r in range(1, nres + 2)}
     nops = rng.randint(20, 90)
     for _ in range(nops):
         x = rng.random()
@@ -105,7 +117,7 @@ def gen_case(rng, cid, force_region=None):
             tv = thr_val(focus[1])
             tb = int(tv) if 0 <= tv < 1e6 else 3
             b = rng.choice([1, 1, 1, 1, 1, 2, 2, 3, 0, tb, tb + 1, max(0, tb - 1), rng.randint(0, 6), 1000])
-            ops.append(f"entry {res} {b}")
+            ops.append(f"entry {res} {b}" + type_tok(rng, tprob, pref, res))
         elif x < 0.90:
             res = focus[0] if rng.random() < 0.7 else rng.choice(resources)
             k = rng.choice([2, 2, 2, 3, 3, 4])
@@ -115,11 +127,35 @@ def gen_case(rng, cid, force_region=None):
                 sched = list(range(k)) + rng.sample(range(k), k)     # all checks, then all records
             else:
                 rng.shuffle(sched)
-            ops.append("par %d %s %s" % (res, ",".join(map(str, bs)), ",".join(map(str, sched))))
+            ops.append("par %d %s %s" % (res, ",".join(map(str, bs)), ",".join(map(str, sched))) + type_tok(rng, tprob, pref, res, k))
         else:
             ops.append(f"sum {rng.choice(resources + [nres + 1])}")
     tags = tuple("%s%s" % (g[0], "/assoc" if r[3] != "-" else "") for g, r in zip(geoms, rules))
     return Case(cid, ops, tags=tags)
+
+
+def typed_stats(cases, dist):
+    """measure how the resource-type dimension is exercised (typed = carries api.WithResourceType(non-common))"""
+    for c in cases:
+        rules = [x.split(",") for x in c.ops[1].split()[2:]]
+        refs = {r[3] for r in rules if r[3] != "-"}
+        typed, untyped = set(), set()
+        for o in c.ops[2:]:
+            t = o.split()
+            if t[0] not in ("entry", "par"):
+                continue
+            tok = t[-1] if t[-1].startswith("type=") else ""
+            names = tok[5:].split(",") if tok else []
+            if any(n != "common" for n in names):
+                typed.add(t[1])
+            if not tok or "common" in names:
+                untyped.add(t[1])
+        if typed:
+            dist["cases-with-typed-entries"] = dist.get("cases-with-typed-entries", 0) + 1
+        if typed & untyped:
+            dist["cases-mixing-typed-and-untyped-on-one-resource"] = dist.get("cases-mixing-typed-and-untyped-on-one-resource", 0) + 1
+        if typed & refs:
+            dist["cases-with-typed-entries-on-a-referenced-resource"] = dist.get("cases-with-typed-entries-on-a-referenced-resource", 0) + 1
 
 
 def gen(ctx, n):
@@ -134,6 +170,7 @@ def gen(ctx, n):
             dist["cases-inside-known-finding-region"] = dist.get("cases-inside-known-finding-region", 0) + 1
         if len(rules) > 1:
             dist["cases-with-several-rules"] = dist.get("cases-with-several-rules", 0) + 1
+    typed_stats(cases, dist)
     return cases
 
 
@@ -162,9 +199,9 @@ def densify(ops, rng):
                 if g == "sum":
                     out.append(f"sum {res}")
                 elif g == "e0":
-                    out.append(f"entry {res} 0")
+                    out.append(f"entry {res} 0" + rng.choice(["", "", " type=web", " type=rpc"]))
                 elif g == "e1":
-                    out.append(f"entry {res} 1")
+                    out.append(f"entry {res} 1" + rng.choice(["", "", " type=web", " type=rpc"]))
                 elif now:
                     m = rng.choice([500, 1000, 1500, 3000, 10000])
                     now += (m - now % m) % m
@@ -229,9 +266,10 @@ def sched_cases(ctx):
                 bs = [rng.choice([1, 1, 2]) for _ in range(k)]
                 now = T0 + rng.randint(0, 10 ** 6) * 500 + rng.choice([0, 250, 499])
                 ops = [f"clock {now}", f"load 1 1,{fb(T)},{iv},-"]
-                ops += ["entry 1 1"] * pre
-                ops.append("par 1 %s %s" % (",".join(map(str, bs)), ",".join(map(str, sc))))
-                ops += ["sum 1", "entry 1 1", f"clock {now + geom(iv)[3] + 500}", "entry 1 1", "sum 1"]
+                ty = rng.choice(["", "", " type=web", " type=rpc"])
+                ops += ["entry 1 1" + rng.choice(["", ty])] * pre
+                ops.append("par 1 %s %s" % (",".join(map(str, bs)), ",".join(map(str, sc))) + (ty and " type=" + ",".join([ty[6:]] * k)))
+                ops += ["sum 1", "entry 1 1" + ty, f"clock {now + geom(iv)[3] + 500}", "entry 1 1", "sum 1"]
                 cases.append(Case(f"s{len(cases)}", ops, tags=(f"k={k}", f"iv={iv}", f"T={T}")))
     return cases
 
